@@ -206,6 +206,9 @@ def run_stdio(ctl: explorer.Ctl, cfg: Dict[str, Any]) -> Dict[str, Any]:
     results: Dict[int, Any] = {}
     st = {"answered": False}
     buf = {"b": b""}
+    tokens: Dict[int, Any] = {}
+    slow = bool(cfg.get("slow_cb"))
+    T = 10.0 if slow else 1.0
 
     def on_stdin(data: bytes):
         buf["b"] += data
@@ -218,6 +221,7 @@ def run_stdio(ctl: explorer.Ctl, cfg: Dict[str, Any]) -> Dict[str, Any]:
             who = (d.get("params") or {}).get("who")
             if d.get("method") == "tools/call" and who is not None:
                 seen[who] = d.get("id")
+                tokens[who] = ((d.get("params") or {}).get("_meta") or {}).get("progressToken")
 
     proc.on_stdin = on_stdin
     perms = list(itertools.permutations(range(k)))
@@ -227,11 +231,27 @@ def run_stdio(ctl: explorer.Ctl, cfg: Dict[str, Any]) -> Dict[str, Any]:
             return
         st["answered"] = True
         order = perms[ctl.choose(len(perms), "answer-order")]
-        grouping = ["one-chunk", "chunk-per-line", "split-mid-line"][ctl.choose(3, "grouping")]
+        if slow:
+            # callers are slow consumers (their progress callbacks take 10 ms each): the server sends 150 progress
+            # notifications (alternating tokens) and then the answers, all in one read
+            lines = [(json.dumps({"jsonrpc": "2.0", "method": "notifications/progress",
+                                  "params": {"progressToken": tokens[n % k], "progress": n}}) + "\n").encode()
+                     for n in range(150)]
+            lines += [(json.dumps({"jsonrpc": "2.0", "id": seen[i], "result": {"for": i}}) + "\n").encode() for i in order]
+            for i in order:
+                delivered[str(i)] = lp.time()
+            proc.stdout.feed(b"".join(lines))
+            return
+        grouping = ["one-chunk", "chunk-per-line", "split-mid-line", "after-150-notifications"][ctl.choose(4, "grouping")]
         lines = [(json.dumps({"jsonrpc": "2.0", "id": seen[i], "result": {"for": i}}) + "\n").encode() for i in order]
         for i in order:
             delivered[str(i)] = lp.time()
-        if grouping == "one-chunk":
+        if grouping == "after-150-notifications":
+            # more unread traffic than the transport's 100-slot stream holds, then the answers, all in one read
+            notes = b"".join((json.dumps({"jsonrpc": "2.0", "method": "notifications/message", "params": {"n": n}}) + "\n").encode()
+                             for n in range(150))
+            proc.stdout.feed(notes + b"".join(lines))
+        elif grouping == "one-chunk":
             proc.stdout.feed(b"".join(lines))
         elif grouping == "chunk-per-line":
             for ln in lines:
@@ -246,7 +266,11 @@ def run_stdio(ctl: explorer.Ctl, cfg: Dict[str, Any]) -> Dict[str, Any]:
         t0 = loop.time()
         try:
             kw = {} if cfg.get("ids") == "auto" else {"message_id": f"call-{i}"}
-            v = await send_message(Recorder(read, consumed, loop, i), write, "tools/call", {"who": i}, timeout=1.0, **kw)
+            if slow:
+                async def cb(progress, total, message):
+                    await asyncio.sleep(0.01)
+                kw["progress_callback"] = cb
+            v = await send_message(Recorder(read, consumed, loop, i), write, "tools/call", {"who": i}, timeout=T, **kw)
             results[i] = ("result", sched.jsonable(v), loop.time(), t0)
         except TimeoutError:
             results[i] = ("timeout", None, loop.time(), t0)
@@ -325,6 +349,7 @@ def run(tier: str, only=None) -> core.Result:
         out = explorer.explore(RUN, cfgs, fidelity=True)
         sched.absorb(res, name, RUN, out, cfgs)
     scfgs = [{"k": k, "ids": ids} for k in ((2, 3) if tier == "quick" else (2, 3, 4)) for ids in ("explicit", "auto")]
+    scfgs += [{"k": k, "ids": "explicit", "slow_cb": True} for k in (2, 3)]
     if not only or "stdio" in only:
         out = explorer.explore(RUN_STDIO, scfgs, fidelity=True)
         sched.absorb(res, "stdio-carrier", RUN_STDIO, out, scfgs)
@@ -335,7 +360,7 @@ def run(tier: str, only=None) -> core.Result:
         "action from the anchor-relative time menu (now, +1us, just before / on (both tie orders) / just after the next "
         "library timer), equal and unequal per-caller timeouts, simultaneous and staggered starts; auto-generated ids through the same and through cloned "
         "write streams; the same through the real stdio transport (scripted child): every answer order x {all answers in one chunk, "
-        "one chunk per line, chunk boundary mid-line}"
+        "one chunk per line, chunk boundary mid-line, all answers behind a burst of 150 notifications}"
     )
     res.assumptions = [
         "responses are delivered at most once each and only after the environment decided to send them",
